@@ -171,14 +171,18 @@ class Interp:
         # ordered comparison of the two symbolic reals "ph" and "pKa": side in {lt, eq, gt}
         if isinstance(left, Sym) or isinstance(right, Sym):
             return Sym.compare(left, op, right, self.env, node)
+        if isinstance(left, dict) and isinstance(right, dict) and isinstance(op, (ast.Eq, ast.NotEq)):
+            return (left is right) if isinstance(op, ast.Eq) else (left is not right)
         if isinstance(op, ast.Eq):
             return left == right
         if isinstance(op, ast.NotEq):
             return left != right
-        if isinstance(op, ast.In):
-            return left in right
-        if isinstance(op, ast.NotIn):
-            return left not in right
+        if isinstance(op, (ast.In, ast.NotIn)):
+            if isinstance(left, dict) and isinstance(right, (list, tuple)):
+                found = any(x is left for x in right)  # object models are compared by identity, like the objects they stand for
+            else:
+                found = left in right
+            return found if isinstance(op, ast.In) else not found
         if isinstance(op, ast.Is):
             return left is right
         if isinstance(op, ast.IsNot):
@@ -210,6 +214,20 @@ class Interp:
                 return Unknown(name)
             if isinstance(base, str):
                 args = [self.ev(a) for a in node.args]
+                return getattr(base, node.func.attr)(*args)
+        if isinstance(node.func, ast.Attribute) and node.func.attr in ("append", "pop", "extend", "remove", "insert"):
+            try:
+                base = self.ev(node.func.value)
+            except AnalysisError:
+                base = None
+            if isinstance(base, list):
+                args = [self.ev(a) for a in node.args]
+                if node.func.attr == "remove" and args and isinstance(args[0], dict):
+                    for i_, x in enumerate(base):
+                        if x is args[0]:
+                            del base[i_]
+                            break
+                    return None
                 return getattr(base, node.func.attr)(*args)
         if self.call_hook is not None:
             return self.call_hook(self, node)
@@ -257,7 +275,21 @@ class Interp:
             return
         elif isinstance(st, ast.Delete):
             self.trace.append(("del", U(st), st))
-        elif isinstance(st, (ast.For, ast.While)) and self.loop_hook is not None:
+        elif isinstance(st, ast.While) and self.loop_hook is not None:
+            n_iter = 0
+            while self.truth(self.ev(st.test), st.test):
+                n_iter += 1
+                if n_iter > 10000:
+                    raise AnalysisError(f"guard language: while-loop at line {st.lineno} does not terminate on the model")
+                try:
+                    self.run(st.body)
+                except Flow as fl:
+                    if fl.kind == "break":
+                        break
+                    if fl.kind == "continue":
+                        continue
+                    raise
+        elif isinstance(st, ast.For) and self.loop_hook is not None:
             self.loop_hook(self, st)
         else:
             raise AnalysisError(
